@@ -58,6 +58,18 @@ func genC16(r *Rand, tier string) *Case {
 				// (and so outside what Close waits for)
 				steps = append(steps, Step{Msgs: []pgwire.FMsg{{K: "typed", T: 'Q', Pad: 5000, PadPat: []byte("oversized ")}}})
 			}
+			if r.Chance(1, 8) {
+				// a statement function that panics inside an extended-protocol Execute
+				// (which the library turns into a failed Execute): the command is over,
+				// Close does not wait for it
+				pk := key + "p"
+				pops := []Op{}
+				if r.Bool() {
+					pops = append(pops, Op{K: "yield"})
+				}
+				c.Programs[pk] = &Program{Stmts: []*StmtProg{{Cols: []ColSpec{{Name: "a", OID: pgwire.OIDInt4}}, Ops: append(pops, Op{K: "panic"})}}}
+				steps = append(steps, Step{Msgs: []pgwire.FMsg{{K: "P", S1: "", S2: pk}, {K: "B"}, {K: "E"}, {K: "S"}}})
+			}
 			if r.Chance(1, 4) {
 				steps = append(steps, Step{Msgs: []pgwire.FMsg{{K: "P", S1: "", S2: key}, {K: "B"}, {K: "E"}, {K: "S"}}})
 			} else {
